@@ -566,7 +566,7 @@ M('heartbeat-ignores-stop', ['C18'], LN, "        while not self._stop_event.is_
 # ------------------------------------------------------------------------------------------------------ C12.R6 / R7
 M('ids-multi-all-same', ['C12'], CLI, '                config.id = f"{filter_name}{i}"', '                config.id = f"{filter_name}{len(configs)}"', ['C12.R6'])
 M('ids-named-even-if-given', ['C12'], CLI, "        if (\n            config.id is None\n        ):  # build list of filters without id", "        if (\n            True\n        ):  # build list of filters without id", ['C12.R6'])
-M('conv-keeps-wildcard-host', ['C12'], CLI, """output = f'tcp://{"localhost" if addr[:1] in "*0" else addr}:{port}'""", """output = f'tcp://{addr}:{port}'""", ['C12.R7'])
+M('conv-keeps-wildcard-host', ['C12'], CLI, """output = f'tcp://{"localhost" if addr in ("*", "0", "0.0.0.0") else addr}:{port}'""", """output = f'tcp://{addr}:{port}'""", ['C12.R7'])
 M('alloc-connect-port-off-by-one', ['C12'], CLI, '                    id_config.outputs = f"tcp://*:{max_port}"', '                    id_config.outputs = f"tcp://*:{max_port + 1}"', ['C12.R7', 'C12.R1'])
 
 # ------------------------------------------------------------------------------------------------------ C17.R5
@@ -659,7 +659,7 @@ M('frame-D41-shape-gray-label-on-colour', ['C10'], FR, "                elif for
 M('frame-D41-shape-relabel-unchecked', ['C10'], FR, "            if shapef is not None and (self.__shapef[1] == 'GRAY') != (len(shapef[0]) == 2):  # relabelling does not convert pixels\n                raise ValueError(f'can not relabel a {shapef[1]} image as {self.__shapef[1]}, convert it')\n", "", ['C10.R8'])
 
 M('cli-D42-shape-numeric-id-kept', ['C12'], CLI, "            if isinstance(value := config.get(key), (int, float)) and not isinstance(value, bool):\n                config[key] = str(value)\n", "            pass\n", ['C12.R10'])
-M('seed7-C12-always-localhost', ['C12'], CLI, '''            addr, port = (output[6:].rsplit(":", 1) + ["5550"])[:2]\n            output = f'tcp://{"localhost" if addr[:1] in "*0" else addr}:{port}\'''', '''            port = (output[6:].rsplit(":", 1) + ["5550"])[:2][1]\n            output = f"tcp://localhost:{port}"''', ['C12.R7'])
+M('seed7-C12-always-localhost', ['C12'], CLI, '''            addr, port = (output[6:].rsplit(":", 1) + ["5550"])[:2]\n            output = f'tcp://{"localhost" if addr in ("*", "0", "0.0.0.0") else addr}:{port}\'''', '''            port = (output[6:].rsplit(":", 1) + ["5550"])[:2][1]\n            output = f"tcp://localhost:{port}"''', ['C12.R7'])
 
 M('refresh-D43-shape-zero-sentinel', ['C13'], RL, "            old_timestamp, old_path, old_size = -1, 0, 0  # nothing seen yet: below every timestamp a file can have, 0 is one of them", "            old_timestamp = old_path = old_size = 0", ['C13.R11'])
 M('seed7-C13-seek-end-listed-size', ['C13', 'C14'], RL, "                        read_file.seek(0, 2)\n\n                        self.read_idx -= 1", "                        read_file.seek(logfiles[-1].size)\n\n                        self.read_idx -= 1", ['C13.R10', 'C14.R10'])
@@ -676,7 +676,7 @@ M('deadline-compared-inverted', ['C08'], F, "time.time() >= exit_after_t:", "tim
 M('emit-disabled-test-inverted', ['C18'], LN, "if not os.getenv(\"OPENLINEAGE_DISABLED\", \"false\").lower() in (\"true\", \"1\"):", "if os.getenv(\"OPENLINEAGE_DISABLED\", \"false\").lower() in (\"true\", \"1\"):", ['C18.R7'])
 M('payload-dict-of-none', ['C18'], LN, "data_to_use = dict(raw_data or {})", "data_to_use = dict(raw_data)", ['C18.R7'])
 
-M('cli-wildcard-test-inverted', ['C12'], CLI, '''"localhost" if addr[:1] in "*0" else addr''', '''"localhost" if addr[:1] not in "*0" else addr''', ['C12.R7'])
+M('cli-wildcard-test-inverted', ['C12'], CLI, '''"localhost" if addr in ("*", "0", "0.0.0.0") else addr''', '''"localhost" if addr not in ("*", "0", "0.0.0.0") else addr''', ['C12.R7'])
 M('cli-scheme-cut-one-too-many', ['C12'], CLI, '''            addr, port = (output[6:].rsplit(":", 1) + ["5550"])[:2]''', '''            addr, port = (output[7:].rsplit(":", 1) + ["5550"])[:2]''', ['C12.R7'])
 M('cli-ipc-clash-loop-stuck', ['C12'], CLI, '''                        new_source += "_"''', '''                        pass''', ['C12.R9'])
 M('cli-ipc-branch-inverted', ['C12'], CLI, '''                if ipc:\n                    new_source = f"ipc://''', '''                if not ipc:\n                    new_source = f"ipc://''', ['C12.R9'])
@@ -685,3 +685,6 @@ M('cli-passthrough-ordered-absent-keys', ['C12'], CLI, "**{k: config[k] for k in
 
 M('cli-chain-source-presence-inverted', ['C12'], CLI, '''        if ("outputs" not in config or config.outputs) and filter_can_do_filter_outputs(''', '''        if ("outputs" in config or config.outputs) and filter_can_do_filter_outputs(''', ['C12.R5'])
 M('cli-chain-sink-presence-inverted', ['C12'], CLI, '''        if last_source and "sources" not in config:''', '''        if last_source and "sources" in config:''', ['C12.R5'])
+
+M('cli-D46-shape-wildcard-prefix-test', ['C12'], CLI, '''"localhost" if addr in ("*", "0", "0.0.0.0") else addr''', '''"localhost" if addr[:1] in "*0" else addr''', ['C12.R7'])
+M('cli-D45-shape-sources-not-reserved', ['C12'], CLI, '''        for source in split_commas_maybe(config.sources) or ():''', '''        for source in ():''', ['C12.R12'])
